@@ -5,6 +5,7 @@ import (
 	"reflect"
 	"sort"
 	"strings"
+	"sync"
 
 	"github.com/mlange-42/arche/ecs"
 	"github.com/mlange-42/arche/ecs/event"
@@ -248,7 +249,11 @@ func (x *World) idOf(n int) ecs.ID {
 }
 
 // initIDTable fills the table of all ecs.ID values by registering types in a scratch world.
+var idTableMu sync.Mutex
+
 func initIDTable() {
+	idTableMu.Lock()
+	defer idTableMu.Unlock()
 	if idTableInit {
 		return
 	}
@@ -288,7 +293,11 @@ func NewWorld(h Header) *World {
 			ecs.TypeID(&w, makeType("filler", next))
 			next++
 		}
-		tp := makeType(cs.Kind, cs.ID)
+		key := cs.ID
+		if cs.Key > 0 {
+			key = cs.Key - 1
+		}
+		tp := makeType(cs.Kind, key)
 		id := ecs.TypeID(&w, tp)
 		if idNum(id) != cs.ID {
 			panic(fmt.Sprintf("component registered at %d instead of %d", idNum(id), cs.ID))
